@@ -284,7 +284,7 @@ def random_body(case, ctx):
 
 def shards(tier, seed):
     out = [{'part': 'matrix', 'bases': [i]} for i in range(len(BASES))]
-    n = 120 if tier == 'quick' else 5000
+    n = 120 if tier == 'quick' else 16000
     out += [{'part': 'random', 'n': n} for _ in range(13)]
     return out
 
